@@ -297,6 +297,24 @@ func (t *tdExt) step(r *h.Report, done []string, f []string, preS, preB []regEnt
 		w.settle()
 		w.out = append(w.out, w.log.take()...)
 		res := t.results()
+		// a Go timer is late on a loaded machine: the verdict "a short write got no result" is only taken once
+		// the result of every short write still pending has been waited for with a generous bound (a correct
+		// tree answers within milliseconds of the timeout; a tree that lost the timer costs the bound once)
+		for deadline := time.Now().Add(6 * time.Second); time.Now().Before(deadline); {
+			missing := false
+			for c, sp := range t.pend {
+				if _, ok := res[c]; sp.short && !ok {
+					missing = true
+				}
+			}
+			if !missing {
+				break
+			}
+			time.Sleep(20 * time.Millisecond)
+			w.settle()
+			w.out = append(w.out, w.log.take()...)
+			res = t.results()
+		}
 		var ctrs []uint64
 		for c := range res {
 			ctrs = append(ctrs, c)
